@@ -8,6 +8,10 @@ import (
 	"testing"
 	"time"
 
+	ssi "github.com/nuts-foundation/go-did"
+	"github.com/nuts-foundation/go-did/did"
+	"github.com/nuts-foundation/go-did/vc"
+	"github.com/nuts-foundation/nuts-node/storage/orm"
 	"verifsim/seams"
 	"verifsim/simkit"
 	"verifsim/world"
@@ -378,6 +382,7 @@ func c01Body(s *simkit.Sim, rc *simkit.RunCtx) {
 	revoked := false        // the issuer revoked
 	revokedKnownBy := false // ... and the verifier has downloaded the list since
 	issuerActive := true
+	trusted := false // the verifier trusts the issuer for this credential type
 	var lastDownload time.Time // the verifier's last download of the status list (observed at the transport)
 	w.HTTP.Observe = func(rec *seams.HTTPRecord) {
 		if rec.Method == "GET" && strings.Contains(rec.Path, "/statuslist/") && rec.Status == 200 && rec.Fault == "" {
@@ -407,8 +412,139 @@ func c01Body(s *simkit.Sim, rc *simkit.RunCtx) {
 	}
 
 	nev := 4 + s.D.Decide("events", 6)
-	for k := 0; k < nev && !s.Failed(); k++ {
-		switch ev := []string{"verify", "verify", "tamper", "tamper", "advance", "advance-past-expiry", "revoke", "deactivate-issuer", "presentation", "presentation-tamper", "presentation-foreign"}[s.D.Decide("event", 11)]; ev {
+	var pending []string
+	for k := 0; (k < nev || len(pending) > 0) && !s.Failed(); k++ {
+		pick := func(evs []string) string {
+			if len(pending) > 0 {
+				e := pending[0]
+				pending = pending[1:]
+				return e
+			}
+			return evs[s.D.Decide("event", len(evs))]
+		}
+		switch ev := pick([]string{"verify", "verify", "tamper", "tamper", "advance", "advance-past-expiry", "revoke", "deactivate-issuer", "presentation", "presentation-tamper", "presentation-foreign", "backdated-with-later-key",
+			"trust-add", "trust-remove", "restart-verifier", "verify-trust-required", "verify-trust-required"}); ev {
+		case "trust-add", "trust-remove":
+			var terr error
+			s.Do(ev, time.Minute, func() {
+				if ev == "trust-add" {
+					terr = ver.VCR().Trust(ssi.MustParseURI("NutsOrganizationCredential"), ssi.MustParseURI(issuerDID))
+				} else {
+					terr = ver.VCR().Untrust(ssi.MustParseURI("NutsOrganizationCredential"), ssi.MustParseURI(issuerDID))
+				}
+			})
+			if terr != nil {
+				s.Fail("C01.harness", ev, "%v", terr)
+				return
+			}
+			trusted = ev == "trust-add"
+			event(ev)
+			if s.D.Decide("then-restart-and-verify", 3) == 1 {
+				pending = append(pending, "restart-verifier!", "verify-trust-required")
+			}
+		case "restart-verifier", "restart-verifier!":
+			if ev == "restart-verifier" && s.D.Decide("really-restart", 2) != 0 {
+				continue
+			}
+			graceful := s.D.Decide("graceful", 2) == 1
+			s.Enable(false)
+			w.Stop("nodea", !graceful)
+			nv, rerr := w.StartNode(ver.Opts)
+			s.Enable(true)
+			if rerr != nil {
+				s.Fail("C01.harness", "restart", "%v", rerr)
+				return
+			}
+			ver = nv
+			event(fmt.Sprintf("restart verifier (graceful=%v)", graceful))
+			s.Info.Inc("verifier-restarted")
+		case "verify-trust-required":
+			if nearExpiry() || !issuerActive {
+				continue
+			}
+			credString := string(cred)
+			if format == "jwt_vc" {
+				_ = json.Unmarshal(cred, &credString)
+			}
+			parsed, perr := vc.ParseVerifiableCredential(credString)
+			if perr != nil {
+				s.Fail("C01.harness", "parse", "%v", perr)
+				return
+			}
+			mustRefresh := lastDownload.IsZero() || time.Since(lastDownload) > 16*time.Minute
+			var verr error
+			s.Do("verify-trust-required", time.Minute, func() { verr = ver.VCR().Verifier().Verify(*parsed, false, true, nil) })
+			want, why := expect()
+			if want && !trusted {
+				want, why = false, "untrusted-issuer"
+			}
+			event(fmt.Sprintf("verify with trust required -> %v (model %v %s)", verr == nil, want, why))
+			s.Info.Inc("verify-trust-required")
+			if revoked && !revokedKnownBy && (!mustRefresh || verr != nil) {
+				continue
+			}
+			if (verr == nil) != want {
+				site := "accepted:" + why
+				if want {
+					site = "refused-valid-trusted"
+				}
+				s.Fail("C01.verdict", site, "%s credential verified=%v with trust required, model says %v (%s); trusted=%v; events: %v; error: %v", format, verr == nil, want, why, trusted, sample.Events, verr)
+				return
+			}
+		case "backdated-with-later-key":
+			// The issuer gets a second assertion key. A credential signed with that key but dated before the key
+			// existed must not verify at a validation time before the key was added (the issuer's own node judges:
+			// it knows the history of its DID document); at the present time it does verify (control).
+			if format != "jwt_vc" || !issuerActive || revoked || (withExp && time.Now().After(expiresAt.Add(-10*time.Minute))) {
+				continue
+			}
+			beforeKey := time.Now()
+			s.Advance(time.Minute)
+			var vms []did.VerificationMethod
+			var aerr error
+			s.Do("add-key", time.Minute, func() { vms, aerr = iss.VDR.AddVerificationMethod(world.Ctx(), "issuer", orm.AssertionKeyUsage()) })
+			if aerr != nil || len(vms) == 0 {
+				s.Fail("C01.harness", "add-key", "%v", aerr)
+				return
+			}
+			s.Advance(time.Minute)
+			var jwtCred string
+			_ = json.Unmarshal(cred, &jwtCred)
+			var forged string
+			var ferr error
+			s.Do("sign-backdated", time.Minute, func() {
+				forged, ferr = iss.SignJWTLike(jwtCred, vms[0].ID.String(), func(claims map[string]interface{}) {
+					claims["nbf"] = beforeKey.Add(-30 * time.Second).Unix()
+					claims["jti"] = fmt.Sprintf("%s#backdated-%d", issuerDID, k)
+				})
+			})
+			if ferr != nil {
+				s.Fail("C01.harness", "sign-backdated", "%v", ferr)
+				return
+			}
+			parsed, perr := vc.ParseVerifiableCredential(forged)
+			if perr != nil {
+				s.Fail("C01.harness", "parse-backdated", "%v", perr)
+				return
+			}
+			verifyAt := func(at time.Time) error {
+				var verr error
+				s.Do("verify-at", time.Minute, func() { verr = iss.VCR().Verifier().Verify(*parsed, true, true, &at) })
+				return verr
+			}
+			if cerr := verifyAt(time.Now()); cerr != nil {
+				s.Info.Inc("backdated-control-not-valid-now")
+				event("backdated credential: not valid at present either (" + trunc(cerr.Error(), 80) + ")")
+				continue
+			}
+			at := beforeKey.Add(time.Duration(s.D.Decide("validation-offset-s", 50)) * time.Second)
+			verr := verifyAt(at)
+			event(fmt.Sprintf("backdated credential signed with a key added later, judged at a time before the key -> %v", verr == nil))
+			s.Info.Inc("backdated-with-later-key")
+			if verr == nil {
+				s.Fail("C01.verdict", "accepted:key-added-after-validation-time", "a %s credential signed with key %s verified at validation time %v, %v before that key was added to the issuer's DID document", format, vms[0].ID.Fragment, at.Sub(issuedAt), beforeKey.Add(time.Minute).Sub(at))
+				return
+			}
 		case "verify":
 			if nearExpiry() {
 				continue
